@@ -788,4 +788,4 @@ MANIFEST = dict(
                "the thorough tier. Trusted: Lean kernel + standard axioms; the harness; CPython's unpickler raising on strict prefixes.",
     technique="Lean 4 proof (invariants over crash histories and over two-writer schedules) + crash enumeration / scheduled interleavings on the real code",
 )
-READY = False
+READY = True
